@@ -187,9 +187,14 @@ fn resolve_renamed(
     let name_map = serde_renamed.get(id)?;
 
     // Find in imports.
-    import_types
+    let mut candidates = import_types
         .iter()
         .filter(|i| i.type_name == id)
+        .collect::<Vec<_>>();
+    // The set has no order: consider the candidate crates in a fixed order.
+    candidates.sort_by(|a, b| a.base_crate.cmp(&b.base_crate));
+    candidates
+        .into_iter()
         .find_map(|import_ref| name_map.get(&import_ref.base_crate))
         // Fallback to looking up in our current namespace.
         .or_else(|| name_map.get(crate_name))
